@@ -1086,9 +1086,14 @@ func c07RunRaceChild(progs []c07RaceProg, budget time.Duration) ([]c07RaceOutcom
 	return outcomes, note
 }
 
+var c07Thorough = false
+
 func c07GenRaceProg(rng *rand.Rand) c07RaceProg {
 	gs := []int{2, 4, 8, 16}
-	fams := []string{"related", "mutual", "mutual", "unrelated", "readers"}
+	if c07Thorough {
+		gs = []int{2, 4, 8, 16, 32}
+	}
+	fams := []string{"related", "mutual", "mutual", "mutual", "unrelated", "readers"}
 	p := c07RaceProg{Seed: rng.Int63n(1 << 40), G: gs[rng.Intn(len(gs))], Cold: rng.Intn(2) == 0, Family: fams[rng.Intn(len(fams))],
 		Prepare: rng.Intn(3) == 0, Ops: 4 + rng.Intn(8)}
 	switch p.Family {
@@ -1198,8 +1203,9 @@ func c07RaceParent(r *Result, rng *rand.Rand, tier string) {
 	if o := os.Getenv("C07_ONLY"); o != "" && o != "race" { // development aid
 		return
 	}
-	nprogs, budget := 24, 75*time.Second
+	nprogs, budget := 40, 75*time.Second
 	if tier == "thorough" {
+		c07Thorough = true
 		nprogs, budget = 400, 12*time.Minute
 	} else if tier == "search" {
 		nprogs, budget = 48, 60*time.Second
